@@ -343,7 +343,8 @@ class TextConverter(PDFConverter[AnyIO]):
     def write_text(self, text: str) -> None:
         text = utils.compatible_encode_method(text, self.codec, "ignore")
         if self.outfp_binary:
-            cast(BinaryIO, self.outfp).write(text.encode())
+            data = text.encode(self.codec or "utf-8", "ignore")
+            cast(BinaryIO, self.outfp).write(data)
         else:
             cast(TextIO, self.outfp).write(text)
 
